@@ -2,6 +2,7 @@ import Goyang.Lemmas.Types
 import Goyang.Lemmas.TypesFuel
 import Goyang.Lemmas.TypesAdm
 import Goyang.Lemmas.TypesSpecErr
+import Goyang.Lemmas.TypesLinked
 /-
 C09 — type names bind lexically and derived types inherit the whole chain.
 
@@ -35,8 +36,9 @@ What is proved (all for unbounded inputs):
   `spec_exec_members`, `spec_exec_accepts`, `spec_exec_error`;
 * `unambiguous_false`: the hypothesis `Spec.Types.Unambiguous` of the older `cyclic_is_error` holds of
   no registry (that theorem is vacuous, kept for the record, superseded by `cyclic_is_error_below`).
-Not proved: that `Env.of reg` satisfies `Linked` whenever `linkOk reg` (the linker is the identity
-layer's, C11); a decidable sufficient condition on the registry for `UnambiguousBelow` /
+`env_of_linked`: `Env.of reg` satisfies `Linked` whenever `linkOk reg` (through C11's `linkAll_spec`);
+`resolve_complete_loaded`: completeness in terms of `resolveType reg`.
+Not proved: a decidable sufficient condition on the registry for `UnambiguousBelow` /
 `KeysIdentify` (on concrete schemas they are discharged through the executable binding, see `Ex`);
 the side conditions `typeOk` are stated with the sub-models' functions (`Range.applyRange`,
 `Number.asRangeInt`, `enumFold`, `Identity.findIdentityBase`), whose own specifications are the
@@ -657,6 +659,32 @@ theorem resolve_errors_iff (env : Env) (root : Mod) (scope : List Stmt) (t : Stm
     exact hne rfl
   · intro hno he
     exact hno (resolve_accepts env fuel root scope t [] (type_not_scope hkw) he)
+
+/-- The link state `Env.of reg` works with has every include statement of every part of a schema
+linked, whenever `Modules.Process` linked all includes and imports without error (`linkOk reg`, which
+the driver checks before it answers): the standing hypothesis `Linked` holds of the environment the
+correspondence run uses. -/
+theorem env_of_linked (reg : Registry) (hok : linkOk reg = true) : Linked (Env.of reg) :=
+  Goyang.Lemmas.TypesLinked.linked_envOf reg hok
+
+/-- **Completeness for a loaded set**, in terms of `resolveType reg` (what the driver computes): if
+`Process` linked everything, sequence numbers and import prefixes are distinct, no name met below
+the reference denotes two typedefs and type statements below it are identified by position, then a
+type statement of a part of a schema that the specification accepts is resolved without error. -/
+theorem resolve_complete_loaded (reg : Registry) (hok : linkOk reg = true) (hid : SeqId reg) (himp : ImportsDistinct reg)
+    (root : Mod) (scope : List Stmt) (t : Stmt) (a : Attrs)
+    (hU : UnambiguousBelow reg (root, scope, t)) (hK : KeysIdentify reg (root, scope, t))
+    (hroot : root ∈ reg.mods) (hsch : PartOfSchema reg root) (ht : t ∈ descendants root.stmt) (hkw : t.kw = "type")
+    (hscope : ∀ s ∈ scope, s ∈ descendants root.stmt)
+    (hadm : Admissible (Env.of reg) root scope t a) :
+    (resolveType reg root scope t).2 = [] := by
+  have hS : Standing (Env.of reg) (root, scope, t) :=
+    { seqId := hid, linked := env_of_linked reg hok, imports := himp, unamb := hU, keys := hK }
+  obtain ⟨y, hy, _⟩ := resolve_complete (Env.of reg) root scope t a hS hroot hsch ht hkw hscope hadm
+    (Env.of reg).fuel (by show (allTypeKeys reg).length + 1 ≤ (allTypeKeys reg).length + 2; omega)
+  unfold resolveType resolveTypeE
+  simp only
+  rw [hy]
 
 /-! ## Non-vacuity: concrete schemas on which the hypotheses of the theorems hold
 
